@@ -57,7 +57,7 @@ func init() { Register(c01{}) }
 func (c01) ID() string       { return "C01" }
 func (c01) New() interface{} { return &C01Case{} }
 func (c01) Rule() string {
-	return "each run: a start container (alignment or sequence set; empty, one row, one column, mixed case and colliding names included; one of the three duplicate-name policies) and a history of 1-12 operations out of 50 kinds (add with right / wrong length and fresh / existing name, append, concat, rename, rename-regexp, clean-names, trim-names, trim-names-auto, append-identifier, sort, shuffle, filter-length, deduplicate, remove-gap-seqs, remove-character-seqs, translate in one or three phases or along a reference row, clone, sample, clear, sub-align, select-sites, transpose, unalign, replace, replace-match-chars, mask, case changes, set-policy, remove-gap-sites, remove-character-sites, remove-majority-sites, compress, trim-sequences; and, held to the invariants and to what they conserve, swap, recombine, shuffle-sites, add-gaps, mutate, simulate-rogue, mask-unique, mask-occurences, rand-sub-align) with arguments resolved against the current content; after every operation all access paths are compared with each other and with the list model (operations whose documentation does not fix the result are only held to the invariants, after which the model is re-read from the container). Distinct = distinct sequence of operation kinds + start shape; non-trivial = at least 2 operations that change the container."
+	return "each run: a start container (alignment or sequence set; empty, one row, one column, mixed case and colliding names included; one of the three duplicate-name policies) and a history of 1-12 operations out of 51 kinds (add with right / wrong length and fresh / existing name, append, concat, rename, rename-regexp, clean-names, trim-names, trim-names-auto, append-identifier, sort, shuffle, filter-length, deduplicate, remove-gap-seqs, remove-character-seqs, translate in one or three phases or along a reference row, clone, sample, clear, sub-align, select-sites, transpose, unalign, replace, replace-match-chars, mask, case changes, set-policy, remove-gap-sites, remove-character-sites, remove-majority-sites, compress, trim-sequences; and, held to the invariants and to what they conserve, swap, recombine, shuffle-sites, add-gaps, mutate, simulate-rogue, mask-unique, mask-occurences, rand-sub-align) with arguments resolved against the current content; after every operation all access paths are compared with each other and with the list model (operations whose documentation does not fix the result are only held to the invariants, after which the model is re-read from the container). Distinct = distinct sequence of operation kinds + start shape; non-trivial = at least 2 operations that change the container."
 }
 
 var c01Names = []string{"a", "b", "c", "A", "seq1", "seq2", "a_0001", "s:1", " x", "t.1|u", "Seq_10", "zz"}
@@ -74,7 +74,7 @@ var c01Kinds = []string{"add", "add", "add", "append", "concat", "rename", "rena
 	"sort", "sort", "shuffle", "filter-length", "deduplicate", "remove-gap-seqs", "translate", "clone", "sample", "clear", "sub-align", "unalign", "replace", "to-upper", "to-lower", "set-policy",
 	"remove-gap-sites", "trim-sequences", "remove-majority-sites", "remove-character-sites", "compress",
 	"select-sites", "transpose", "mask", "mask", "remove-character-seqs", "replace-match-chars",
-	"swap", "recombine", "shuffle-sites", "add-gaps", "mutate", "simulate-rogue", "mask-unique", "mask-occurences", "rand-sub-align", "translate-by-reference", "rarefy"}
+	"swap", "recombine", "shuffle-sites", "add-gaps", "mutate", "simulate-rogue", "mask-unique", "mask-occurences", "rand-sub-align", "translate-by-reference", "rarefy", "replace-regex"}
 
 func (c01) Gen(rs uint64, tier string, race bool) interface{} {
 	r := NewRand(rs)
@@ -151,6 +151,10 @@ func (c01) Gen(rs uint64, tier string, race bool) interface{} {
 			op.Seq = r.PickS("T", "G", "N", "-", ".")
 		case "set-policy":
 			op.N = r.Pick(align.IGNORE_NONE, align.IGNORE_NAME, align.IGNORE_SEQUENCE)
+		case "replace-regex":
+			k := r.Intn(7)
+			op.Regex = []string{"N+", "-+", "A.", "[CG]", "^A", "T$", "(A)(C)"}[k]
+			op.Repl = []string{"--", "NN", "--", "S", "-", "-", "$2$1"}[k]
 		case "translate":
 			op.N = r.Pick(0, 0, 1, 2, -1)
 		case "select-sites":
@@ -1467,6 +1471,34 @@ func (c01) Run(ctx *Ctx, ci interface{}) (o Outcome) {
 			if err := cont.Replace(op.Name, op.Seq, false); err != nil {
 				fail("unexpected-error", "Replace(%q,%q) returns %v", op.Name, op.Seq, err)
 				return
+			}
+		case "replace-regex":
+			// a regular expression and a replacement; in an alignment the rows must keep their length (an error otherwise,
+			// after which nothing is promised: the history ends there)
+			{
+				re := regexp.MustCompile(op.Regex)
+				want := make([]HRow, len(m.rows))
+				keeps := true
+				for i, r := range m.rows {
+					want[i] = HRow{r.Name, re.ReplaceAllString(r.Seq, op.Repl)}
+					keeps = keeps && len(want[i].Seq) == len(r.Seq)
+				}
+				err := cont.Replace(op.Regex, op.Repl, true)
+				if m.aligned && !keeps {
+					if err == nil {
+						trail = append(trail, fmtOp(op))
+						fail("add-verdict", "Replace(%q -> %q, regexp) changes the length of aligned rows and reports no error", op.Regex, op.Repl)
+						return
+					}
+					o.Add("rejected_operations", 1)
+					o.Nontrivial = changed >= 2
+					return
+				}
+				if err != nil {
+					fail("unexpected-error", "Replace(%q -> %q, regexp) returns %v", op.Regex, op.Repl, err)
+					return
+				}
+				m.rows = want
 			}
 		case "to-upper":
 			for i := range m.rows {
